@@ -374,9 +374,9 @@ Proof.
       assert (H1' : n_outW (nd A s1) = Some ow) by (now rewrite N).
       destruct (upd_out j s1 (L ++ p) L L Opre Epre E p R1 ow H1' Eso) as (s2 & W2' & R2 & C2).
       destruct (c_output c) eqn:Eo.
-      * cbn [app write_leaves]. rewrite W1, W2'.
+      * cbn [app write_leaves]. rewrite W1, W2'. cbn [fst].
         pose proof (upd_cap j s2 _ _ _ _ _ _ p R2) as R3. exact R3.
-      * cbn [app write_leaves]. rewrite W1, W2'. now apply (running_Lc _ _ _ _ L).
+      * cbn [app write_leaves]. rewrite W1, W2'. cbn [fst]. now apply (running_Lc _ _ _ _ L).
     + destruct Hout as [H1 H2]. rewrite H1.
       destruct (c_output c) eqn:Eo.
       * assert (Hm : multi = true) by (unfold multi; now rewrite Eo).
@@ -629,6 +629,118 @@ Proof.
 Qed.
 
 (* ---------------------------------------------------------------------------------------------------- *)
+(* the log gets everything, whatever happens to the stdout: redirect, at any point                        *)
+(* ---------------------------------------------------------------------------------------------------- *)
+(* a raw write / a Write through ANY writer (its descriptor may reject writes, it may carry an error) touches nothing
+   but that writer - whose descriptor stays the same - and the file behind its descriptor *)
+Definition wpath (s : st A) (b : nat) : nat := fd_path (fdd A s (bw_fd A (buf A s b))).
+
+Definition any_frame (s s' : st A) (b : nat) : Prop :=
+  (forall q, q <> wpath s b -> dsk A s' q = dsk A s q) /\ (forall b', b' <> b -> buf A s' b' = buf A s b') /\
+  (forall f', fdd A s' f' = fdd A s f') /\ bw_fd A (buf A s' b) = bw_fd A (buf A s b) /\ core s' = core s /\ capbuf A s' = capbuf A s.
+
+Lemma any_frame_refl s b : any_frame s s b.
+Proof. repeat split; reflexivity. Qed.
+
+Lemma any_frame_trans s s1 s2 b : any_frame s s1 b -> any_frame s1 s2 b -> any_frame s s2 b.
+Proof.
+  intros (D1 & B1 & F1 & W1 & C1 & P1) (D2 & B2 & F2 & W2 & C2 & P2).
+  assert (Hp : wpath s1 b = wpath s b) by (unfold wpath; now rewrite W1, F1).
+  repeat split.
+  - intros q Hq. rewrite D2 by (now rewrite Hp). now apply D1.
+  - intros b' Hb'. now rewrite B2, B1.
+  - intros f'. now rewrite F2, F1.
+  - now rewrite W2.
+  - now rewrite C2.
+  - now rewrite P2.
+Qed.
+
+Lemma raw_any_frame s b p keep : any_frame s (fst (bw_raw A s b p keep)) b.
+Proof.
+  unfold bw_raw, fd_write. destruct (fd_closed (fdd A s (bw_fd A (buf A s b)))) eqn:Ec.
+  - cbn. unfold any_frame, wpath, buf, put_buf, set_bufs, dsk, fdd, core. cbn. repeat split; try reflexivity.
+    + intros b' Hb'. now apply mget_mset_other.
+    + now rewrite mget_mset_same.
+  - cbn. unfold any_frame, wpath, buf, put_buf, set_bufs, set_disk, dsk, fdd, core. cbn. repeat split; try reflexivity.
+    + intros q Hq. now apply mget_mset_other.
+    + intros b' Hb'. now apply mget_mset_other.
+    + now rewrite mget_mset_same.
+Qed.
+
+Lemma write_any_frame s b p : any_frame s (fst (bw_write A s b p)) b.
+Proof.
+  unfold bw_write. destruct (bw_err A (buf A s b)); [apply any_frame_refl|].
+  destruct (length p <=? BUFSZ - length (bw_buf A (buf A s b))).
+  - cbn [fst]. unfold any_frame, wpath, buf, put_buf, set_bufs, dsk, fdd, core. cbn. repeat split; try reflexivity.
+    + intros b' Hb'. now apply mget_mset_other.
+    + now rewrite mget_mset_same.
+  - destruct (bw_buf A (buf A s b)) as [|x l]; [apply raw_any_frame|].
+    destruct (length (skipn (BUFSZ - length (x :: l)) p) <=? BUFSZ); [apply raw_any_frame|].
+    match goal with |- context [bw_raw A s b ?a []] =>
+      pose proof (raw_any_frame s b a []) as H1; destruct (bw_raw A s b a []) as [s1 ok] end.
+    cbn [fst] in H1. destruct ok; [|exact H1].
+    eapply any_frame_trans; [exact H1 | apply raw_any_frame].
+Qed.
+
+Lemma any_frame_sink s s' b b2 f2 path2 bf2 : any_frame s s' b -> b2 <> b -> sink s b2 f2 path2 bf2 -> sink s' b2 f2 path2 bf2.
+Proof. intros (_ & Hb & Hf & _) Hn [H1 H2]. split; [now rewrite Hb | now rewrite Hf]. Qed.
+
+(* what can happen while the step prints: the MultiWriter [log; best-effort stdout; capture?] gets a chunk, or the
+   stdout: target starts to reject writes (a volume runs full: modelled as its descriptor failing from then on) *)
+Inductive mev := MWrite (p : bytes) | MFail.
+Definition mstep (l : list leaf) (of : nat) (s : st A) (e : mev) : st A :=
+  match e with MWrite p => fst (write_leaves A s l p) | MFail => close A s of end.
+Definition written (evs : list mev) : bytes := flat_map (fun e => match e with MWrite p => p | MFail => [] end) evs.
+
+Definition log_good (s : st A) (lw lf path ow : nat) (L : bytes) : Prop :=
+  exists bl, sink s lw lf path bl /\ dsk A s path ++ bl = L /\ length bl <= BUFSZ /\ wpath s ow <> path.
+
+Lemma mstep_log_good l_tail s lw lf path ow of L e :
+  l_tail = [] \/ l_tail = [LCap] -> ow <> lw -> of <> lf -> log_good s lw lf path ow L ->
+  log_good (mstep (LBuf lw :: LBest ow :: l_tail) of s e) lw lf path ow
+           (L ++ match e with MWrite p => p | MFail => [] end).
+Proof.
+  intros Ht Hne Hf (bl & Hsk & Hd & Hlen & Hp).
+  destruct e as [p|]; cbn [mstep].
+  - cbn [write_leaves].
+    destruct (write_spec s lw lf path bl p Hsk) as (s1 & W1 & D1 & K1 & FR1).
+    rewrite W1.
+    pose proof (write_any_frame s1 ow p) as AF. set (s2 := fst (bw_write A s1 ow p)) in *.
+    pose proof FR1 as (FD & FB & FF & FC & FP).
+    assert (Hp1 : wpath s1 ow = wpath s ow) by (unfold wpath; now rewrite (FB ow Hne), FF).
+    destruct AF as (AD & AB & AFd & AW & AC & AP).
+    destruct (bwp_spec (dsk A s path) bl p Hlen) as [Hb1 Hb2].
+    assert (G : log_good s2 lw lf path ow (L ++ p)).
+    { exists (snd (bwp (dsk A s path) bl p)).
+      split; [apply (any_frame_sink s1 s2 ow); [repeat split; assumption | now apply not_eq_sym | exact K1]|].
+      split; [rewrite AD by (rewrite Hp1; now apply not_eq_sym); rewrite D1, Hb1, <- Hd; now rewrite app_assoc|].
+      split; [exact Hb2|]. unfold wpath. rewrite AW, AFd. fold (wpath s1 ow). now rewrite Hp1. }
+    destruct Ht as [->| ->]; cbn [write_leaves fst]; [exact G|].
+    destruct G as (bl' & K & D & Ln & P). exists bl'. split; [exact K|]. split; [exact D|]. split; [exact Ln | exact P].
+  - rewrite app_nil_r. exists bl. destruct Hsk as [Hb Hfd].
+    split; [split; [exact Hb|]|].
+    + unfold close, fdd, set_fds. cbn. rewrite mget_mset_other by (now apply not_eq_sym). exact Hfd.
+    + split; [exact Hd|]. split; [exact Hlen|].
+      unfold wpath, close, fdd, set_fds, buf. cbn.
+      unfold wpath, fdd, buf in Hp.
+      destruct (Nat.eq_dec (bw_fd A (mget (no_buf A) (bufs A s) ow)) of) as [Heq|Hn].
+      * rewrite Heq in *. rewrite mget_mset_same. cbn. exact Hp.
+      * rewrite mget_mset_other by exact Hn. exact Hp.
+Qed.
+
+(* every chunk handed to the MultiWriter reaches the log sink (file ++ buffer), and - by teardown_flushes_log - the
+   log file, whatever the stdout: redirect does and whenever it starts to fail; no write ever reports an error *)
+Theorem log_gets_all : forall l_tail evs s lw lf path ow of L,
+  l_tail = [] \/ l_tail = [LCap] -> ow <> lw -> of <> lf -> log_good s lw lf path ow L ->
+  log_good (fold_left (mstep (LBuf lw :: LBest ow :: l_tail) of) evs s) lw lf path ow (L ++ written evs).
+Proof.
+  intros l_tail evs. induction evs as [|e evs IH]; intros s lw lf path ow of L Ht Hne Hf Hg.
+  - cbn. now rewrite app_nil_r.
+  - cbn [fold_left written flat_map]. rewrite app_assoc. apply IH; try assumption.
+    now apply mstep_log_good.
+Qed.
+
+(* ---------------------------------------------------------------------------------------------------- *)
 (* all attempts                                                                                           *)
 (* ---------------------------------------------------------------------------------------------------- *)
 Lemma chunks_running j cs : forall s L Opre Epre E, running j s L L L Opre Epre E ->
@@ -753,4 +865,13 @@ Example teardown_log_with_failing_stdout :
   let s := exec nat c init (body nat 0 [(Out, [1; 2; 3]); (Err, [4])]) in
   let s' := match n_outF (nd nat s) with Some f => close nat s f | None => s end in   (* the target starts failing *)
   dsk nat (teardown nat s') (logpath nat s') = [1; 2; 3; 4] /\ dsk nat (teardown nat s') P_STDOUT = [].
+Proof. vm_compute. split; reflexivity. Qed.
+
+(* before fix 78722d0 the first failed write of the stdout: redirect ended the copy and the log lost what followed *)
+Example failing_stdout_beyond_buffer_fixed :
+  let c := mkc true false false false in
+  let s0 := exec nat c init [ASetup nat 0; AStart nat] in
+  let s1 := match n_outF (nd nat s0) with Some f => close nat s0 f | None => s0 end in     (* /dev/full *)
+  let s2 := exec nat c s1 [AChunk nat Out (repeat 1 3000); AChunk nat Err (repeat 2 3000); AChunk nat Out [3]; AEnd nat; ATeardown nat] in
+  dsk nat s2 (logpath nat s2) = repeat 1 3000 ++ repeat 2 3000 ++ [3] /\ dsk nat s2 P_STDOUT = [].
 Proof. vm_compute. split; reflexivity. Qed.
